@@ -217,6 +217,8 @@ class Effects:
                 ds = norm.fn_defs(fn.node).defs.get(base.id, [])
                 if any(v is not None and (M.match(M.compile_pat("URL($X, ...)"), v) is not None or M.match(M.compile_pat("URL.build(...)"), v) is not None) for _d, v in ds):
                     yield "ValueError", f"yarl validates host/port lazily on `.{n.attr}`", None
+                    # observed with yarl 1.24.5 (F92): `http://[::1]@/x` - brackets in the userinfo, empty host - raises IndexError
+                    yield "IndexError", f"yarl splits the authority lazily on `.{n.attr}` (IndexError for an empty host after a bracketed userinfo)", None
         if not isinstance(n, ast.Call):
             return
         name = prog.call_name(n)
